@@ -221,6 +221,7 @@ def phases(g="g", r="r", l=None, basis="ground-rydberg", eom=True):
         A += [
             ("enable_eom", g, 2.0, 0.0, 0.0, False),
             ("eom_pulse", g, 52, 0.5, 1.0, "min-delay", False),
+            ("modify_eom", g, 3.0, -1.0, -20.0, True),  # drift-corrected change of setpoint (shift of the reference)
             ("disable_eom", g, False),
         ]
     return A
@@ -248,6 +249,7 @@ def eom_full(g="g", l=None):
     return A
 
 R60P = ["r", 60, 1.0, -1.0, 1.0, 0.7]
+Z40P = ["c", 40, 0.0, -2.0, PI2]
 C40Q = ["c", 40, 2.0, 0.5, 2.5]
 
 
@@ -258,6 +260,7 @@ def render(g="g", l="l", dmm=None, eom=True, g2=None):
         ("add", R60P, g, "no-delay"),
         ("add", B100, g, "min-delay"),
         ("delay", 16, g),
+        ("add", Z40P, g, "no-delay"),  # user-built hold: zero amplitude, constant detuning, phase of its own
     ]
     if l:
         A += [
